@@ -250,6 +250,153 @@ pub fn run(ctx: &mut Ctx) -> Report {
 			}
 		}
 	}
+	// (e) long-lived objects against fresh ones: a key pair and issuer certificates that have been
+	// through a varied history of calls (every key-identifier method, certificates, CRLs and
+	// requests) must produce what fresh copies of the same key and the same parameters produce —
+	// the output is a function of parameters, subject key and issuer alone
+	#[cfg(not(feature = "nocrypto"))]
+	{
+		let kids = [Kid::Sha256, Kid::Sha384, Kid::Sha512, Kid::Pre(vec![4, 3, 2, 1])];
+		for alg in ["ed25519", "ecdsaP256"] {
+			let shared = s.ctx.key(alg);
+			let der = shared.serialize_der();
+			let fresh_key = || KeyPair::try_from(der.as_slice()).unwrap();
+			let subject = s.ctx.key("ed25519");
+			let orders: Vec<Vec<usize>> = vec![vec![0, 1, 2, 3], vec![3, 2, 1, 0], vec![2, 0, 3, 1]];
+			for order in orders {
+				for &ki in &order {
+					// issuer parameters under this key-identifier method, over the *same* key
+					let mut ip = PCert::empty();
+					ip.serial = Some(vec![1]);
+					ip.dn = Dn(vec![(DnT::Cn, DnV::Utf8(format!("issuer {}", ki)))]);
+					ip.ca = Ca::Ca(None);
+					ip.kid = kids[ki].clone();
+					let (Some(rip), Some(rip2)) = (ip.real(), ip.real()) else { continue };
+					let (Ok(ic_shared), Ok(ic_fresh)) = (rip.self_signed(&shared), rip2.self_signed(&fresh_key())) else { continue };
+					let line = format!("long-lived-vs-fresh alg={} issuer-kid={:?}", alg, kids[ki]);
+					s.rep.case(&line, true);
+					s.rep.count("long_lived_vs_fresh");
+					if tbs_hex(ic_shared.der()) != tbs_hex(ic_fresh.der()) {
+						s.rep.violate("C15:depends-on-object-history:issuer-certificate", "a certificate generated with a key pair that has signed other things before differs from the one a fresh copy of the same key gives", format!("{}\nlong-lived: {}\nfresh:      {}", line, hex(ic_shared.der()), hex(ic_fresh.der())));
+					}
+					// a leaf with an authority key identifier
+					let mut lp = PCert::default_like();
+					lp.serial = Some(vec![2]);
+					lp.aki = true;
+					let (Some(rl), Some(rl2)) = (lp.real(), lp.real()) else { continue };
+					let a = rl.signed_by(&*subject, &ic_shared, &shared).map(|c| tbs_hex(c.der()));
+					let b = rl2.signed_by(&*subject, &ic_fresh, &fresh_key()).map(|c| tbs_hex(c.der()));
+					if a.as_ref().ok() != b.as_ref().ok() {
+						s.rep.violate("C15:depends-on-object-history:certificate", "a certificate issued with a long-lived issuer key differs from the one issued with a fresh copy of the same key and the same issuer certificate parameters", format!("{}\nlong-lived: {:?}\nfresh:      {:?}", line, a, b));
+					}
+					// CRLs under each method
+					for ck in &kids {
+						let mut crl = gen_crl(&mut s.rng);
+						crl.kid = ck.clone();
+						crl.this = Dt::ymd(2024, 1, 1);
+						crl.next = Dt::ymd(2025, 1, 1);
+						let (Some(rc), Some(rc2)) = (crl.real(), crl.real()) else { continue };
+						let a = rc.signed_by(&ic_shared, &shared).map(|c| tbs_hex(c.der()));
+						let b = rc2.signed_by(&ic_fresh, &fresh_key()).map(|c| tbs_hex(c.der()));
+						if a.as_ref().ok() != b.as_ref().ok() {
+							s.rep.violate("C15:depends-on-object-history:crl", "a CRL issued with a long-lived issuer key differs from the one issued with a fresh copy of the same key", format!("{} crl-kid={:?}\nlong-lived: {:?}\nfresh:      {:?}", line, ck, a, b));
+						}
+					}
+				}
+			}
+		}
+		s.rep.exhaustive.push("long-lived key pair and issuer certificates vs fresh copies: 4 key-identifier methods in 3 orders x {issuer certificate, leaf with AKI, CRL under each of the 4 methods}".into());
+	}
+	// (f) a parameter object that is edited after it was generated from: the next generation is the
+	// one freshly built, equal parameters give (no encoding of an earlier state survives)
+	{
+		let key = s.ctx.key("ed25519");
+		let types = [DnT::C, DnT::O, DnT::Ou, DnT::Cn, DnT::Custom(vec![1, 2, 840, 113549, 1, 9, 1])];
+		for k in 0..n {
+			let mut base = PCert::default_like();
+			base.serial = None;
+			base.san = vec![San::Dns("edit.example".into())];
+			if cfg!(feature = "nocrypto") {
+				base.kid = Kid::Pre(vec![1; 20]);
+			}
+			let Some(mut live) = base.real() else { continue };
+			live.distinguished_name = DistinguishedName::new();
+			let mut abs: Vec<(usize, String)> = Vec::new();
+			let steps = 3 + s.rng.below(6) as usize;
+			let mut trace: Vec<String> = Vec::new();
+			for j in 0..steps {
+				let t = s.rng.below(types.len() as u64) as usize;
+				let edit = s.rng.below(4);
+				let v = format!("v{}-{}", k, j);
+				if edit < 3 {
+					live.distinguished_name.push(types[t].real(), DnValue::Utf8String(v.clone()));
+					match abs.iter_mut().find(|e| e.0 == t) {
+						Some(e) => e.1 = v.clone(),
+						None => abs.push((t, v.clone())),
+					}
+					trace.push(format!("push {:?}={}", types[t], v));
+				} else {
+					live.distinguished_name.remove(types[t].real());
+					abs.retain(|e| e.0 != t);
+					trace.push(format!("remove {:?}", types[t]));
+				}
+				// generate from the live object (request and certificate), and from fresh equal parameters
+				let mut fresh_p = base.clone();
+				fresh_p.dn = Dn(abs.iter().map(|(t, v)| (types[*t].clone(), DnV::Utf8(v.clone()))).collect());
+				let Some(fresh) = fresh_p.real() else { continue };
+				if fresh != live {
+					s.rep.violate("C15:edited-parameters-equal-fresh", "parameters edited through the API differ (==) from freshly built parameters with the same content", format!("{:?}", trace));
+				}
+				let a = live.serialize_request(&key).map(|c| tbs_hex(c.der()));
+				let b = fresh.serialize_request(&key).map(|c| tbs_hex(c.der()));
+				s.rep.count("edit_then_generate");
+				s.rep.case(&format!("edit-then-generate {} {:?}", k, trace), true);
+				if a.as_ref().ok() != b.as_ref().ok() {
+					s.rep.violate("C15:generation-after-edit", "a request generated from parameters that were generated from before and then edited differs from the one freshly built equal parameters give", format!("edits so far: {:?}\nedited object: {:?}\nfresh object:  {:?}", trace, a, b));
+				}
+				let mut with_serial = live.clone();
+				with_serial.serial_number = Some(SerialNumber::from_slice(&[9]));
+				let mut fresh_serial = fresh.clone();
+				fresh_serial.serial_number = Some(SerialNumber::from_slice(&[9]));
+				let a = with_serial.self_signed(&key).map(|c| c.der().to_vec());
+				let b = fresh_serial.self_signed(&key).map(|c| c.der().to_vec());
+				if a.as_ref().ok() != b.as_ref().ok() {
+					s.rep.violate("C15:generation-after-edit", "a certificate generated from a clone of edited parameters differs from the one freshly built equal parameters give", format!("edits so far: {:?}", trace));
+				}
+			}
+		}
+	}
+	// (g) keys that came through a loader: whole output identical on repeat for the deterministic
+	// schemes, for every RSA algorithm and entry point of the build
+	#[cfg(not(feature = "nocrypto"))]
+	{
+		for alg in crate::keys::build_algs() {
+			let name = alg_name(alg);
+			if name.starts_with("ecdsa") {
+				continue;
+			}
+			let pkcs8: Vec<u8> = if name.starts_with("rsa") { s.ctx.rsa_fixture.clone() } else { s.ctx.key(name).serialize_der() };
+			for (loader, res) in crate::props::c01::loaded_keys(alg, &pkcs8) {
+				let Ok(key) = res else { continue };
+				let mut p = PCert::default_like();
+				p.serial = Some(vec![3]);
+				let (Some(r1), Some(r2), Some(r3)) = (p.real(), p.real(), p.real()) else { continue };
+				let a = r1.self_signed(&key).map(|c| c.der().to_vec());
+				let b = r2.self_signed(&key).map(|c| c.der().to_vec());
+				let mut q = p.clone();
+				q.serial = None;
+				let c1 = q.real().unwrap().serialize_request(&key).map(|c| c.der().to_vec());
+				let c2 = q.real().unwrap().serialize_request(&key).map(|c| c.der().to_vec());
+				let _ = r3;
+				s.rep.count("loaded_key_repeats");
+				s.rep.case(&format!("loaded-key-repeat {} {}", name, loader), true);
+				if a.as_ref().ok() != b.as_ref().ok() || c1.as_ref().ok() != c2.as_ref().ok() {
+					s.rep.violate(&format!("C15:repeat:loaded-key:{}", name), "repeating a generation with a key loaded for a deterministic signature scheme (Ed25519, RSA PKCS#1 v1.5) changes the output", format!("algorithm={} loaded through {}\nfirst:  {:?}\nsecond: {:?}", name, loader, a.map(|d| hex(&d)), b.map(|d| hex(&d))));
+				}
+			}
+		}
+		s.rep.exhaustive.push("repeat of certificate and request generation with keys loaded through each of the six entry points x every Ed25519 / RSA algorithm of the build".into());
+	}
 	// (c) threads sharing one key pair and one issuer certificate
 	{
 		let key = s.ctx.key("ed25519");
